@@ -581,6 +581,14 @@ func c54Prop(c c54Case, r *vp.Rec) error {
 		r.Classf("request:atyp%d", q.atyp)
 	}
 
+	negotiated := srv.cleanUpTo == 2 || (srv.cleanUpTo == 1 && len(c.MethodReply) == 2 && c.MethodReply[1] == 0)
+	if srv.req == nil && srv.stage == 2 && negotiated && !srv.closed && !tooLong && c.Port != 0 {
+		// Every reply so far was the canonical success reply and the server is waiting
+		// for the CONNECT request, but the client gave up without sending one although
+		// the destination is one the statement covers.
+		return fmt.Errorf("dial %q (%d-byte host): no CONNECT request was sent after a successful negotiation (error: %v)", address, len(host), err)
+	}
+
 	// (2) What the client must make of the server's bytes.
 	want, wb, why := c54Expect(srv.emitted, offered)
 	switch {
